@@ -96,6 +96,21 @@ def check(scn, H, view=None):
         if rec['op'] == 'snapshot':
             if rec['exc'] is not None:
                 st['snapshot_raised'] += 1
+                edge = 'within simulation interval' in rec['exc'][1] and (
+                    rec['t_si'] >= t[-1] * (1 - 1e-12) or
+                    rec['t_si'] <= t[0]) if rec.get('t_si') is not None \
+                    else True
+                # (the documented rejection of a target that a unit
+                # conversion has rounded an ulp beyond the last instant is
+                # not judged)
+                if consistent and rec.get('t_si') is not None and \
+                        not edge and rec['exc'][0] != 'TimeoutError':
+                    # a legal target (inside the simulated interval, ends
+                    # included) on a consistent history must be answered
+                    viol(f"snapshot/raises/{rec['exc'][0]}",
+                         message=rec['exc'][1], target=rec.get('t_si'),
+                         t_index=rec.get('t_index'), last_instant=t[-1],
+                         op_index=rec['i'])
                 continue
             st['snapshots'] += 1
             tt = rec['t_si']
